@@ -258,6 +258,9 @@ class Beh:
     def space(self, o):
         self.add({"k": "space", "o": o})
 
+    def spstd(self, shape, lens):
+        self.add({"k": "spstd", "shape": shape, "lens": list(lens)})
+
     def pure(self, o, batch):
         self.add({"k": "pure", "o": o, "batch": batch})
 
